@@ -222,55 +222,355 @@ theorem llcBytes_length (h : Llc) (hf : h.Fits) : (llcBytes h).length = h.length
   · omega
   · have := hf.oui _ ho; omega
 
+/-- the four shapes `llc.parse` distinguishes, on explicit octets -/
+theorem llcParse_u (next : XNext) (D S C0 : UInt8) (rest : Bytes)
+    (h2 : (C0.toNat % 2 == 0 || C0.toNat % 4 == 2) = false)
+    (hns : ((S.toNat / 2) * 2 == 0xaa && (D.toNat / 2) * 2 == 0xaa) = false) :
+    llcParse next (D :: S :: C0 :: rest) = .llc ⟨3, D.toNat, S.toNat, C0.toNat, none, 0xffff⟩ (.raw rest) := by
+  unfold llcParse
+  simp [getU8, h2, hns]
+
+theorem llcParse_i (next : XNext) (D S C0 C1 : UInt8) (rest : Bytes)
+    (h2 : (C0.toNat % 2 == 0 || C0.toNat % 4 == 2) = true)
+    (hns : ((S.toNat / 2) * 2 == 0xaa && (D.toNat / 2) * 2 == 0xaa) = false) :
+    llcParse next (D :: S :: C0 :: C1 :: rest)
+      = .llc ⟨4, D.toNat, S.toNat, C0.toNat + C1.toNat * 256, none, 0xffff⟩ (.raw rest) := by
+  unfold llcParse
+  simp [getU8, h2, hns]
+  rw [if_neg (by omega), if_neg (by omega)]
+
+theorem llcParse_us (next : XNext) (D S C0 : UInt8) (o : Bytes) (et : Nat) (rest : Bytes) (ho : o.length = 3)
+    (het : et < 65536) (h2 : (C0.toNat % 2 == 0 || C0.toNat % 4 == 2) = false)
+    (hs : ((S.toNat / 2) * 2 == 0xaa && (D.toNat / 2) * 2 == 0xaa) = true) :
+    llcParse next (D :: S :: C0 :: (o ++ (be16 et ++ rest)))
+      = .llc ⟨8, D.toNat, S.toNat, C0.toNat, some o, et⟩
+          (if o = [0, 0, 0] then lift (contOf next) (parseNext probe et rest false) else .raw rest) := by
+  have e1 : sl (D :: S :: C0 :: (o ++ (be16 et ++ rest))) 3 6 = o :=
+    sl_mid [D, S, C0] o _ 3 6 (by simp) (by simp [ho])
+  have e2 : sl (D :: S :: C0 :: (o ++ (be16 et ++ rest))) 6 8 = be16 et := by
+    have := sl_mid ([D, S, C0] ++ o) (be16 et) rest 6 8 (by simp [ho]) (by simp [ho])
+    simpa using this
+  have e3 : (D :: S :: C0 :: (o ++ (be16 et ++ rest))).drop 8 = rest := by
+    have := drop_left (([D, S, C0] ++ o) ++ be16 et) rest 8 (by simp [ho])
+    simpa using this
+  have e4 : beDec (be16 et) = et := by rw [be16, beDec_beEnc 2 et (by simpa using het)]
+  have hlen : (D :: S :: C0 :: (o ++ (be16 et ++ rest))).length = 8 + rest.length := by simp [ho]; omega
+  unfold llcParse
+  simp only [hlen]
+  have c0 : ¬ (8 + rest.length < 3) := by omega
+  simp [getU8, h2, hs, e1, e2, e3, e4, c0]
+  rw [if_neg (by omega)]
+  split <;> rfl
+
+theorem llcParse_is (next : XNext) (D S C0 C1 : UInt8) (o : Bytes) (et : Nat) (rest : Bytes) (ho : o.length = 3)
+    (het : et < 65536) (h2 : (C0.toNat % 2 == 0 || C0.toNat % 4 == 2) = true)
+    (hs : ((S.toNat / 2) * 2 == 0xaa && (D.toNat / 2) * 2 == 0xaa) = true) :
+    llcParse next (D :: S :: C0 :: C1 :: (o ++ (be16 et ++ rest)))
+      = .llc ⟨9, D.toNat, S.toNat, C0.toNat + C1.toNat * 256, some o, et⟩
+          (if o = [0, 0, 0] then lift (contOf next) (parseNext probe et rest false) else .raw rest) := by
+  have e1 : sl (D :: S :: C0 :: C1 :: (o ++ (be16 et ++ rest))) 4 7 = o :=
+    sl_mid [D, S, C0, C1] o _ 4 7 (by simp) (by simp [ho])
+  have e2 : sl (D :: S :: C0 :: C1 :: (o ++ (be16 et ++ rest))) 7 9 = be16 et := by
+    have := sl_mid ([D, S, C0, C1] ++ o) (be16 et) rest 7 9 (by simp [ho]) (by simp [ho])
+    simpa using this
+  have e3 : (D :: S :: C0 :: C1 :: (o ++ (be16 et ++ rest))).drop 9 = rest := by
+    have := drop_left (([D, S, C0, C1] ++ o) ++ be16 et) rest 9 (by simp [ho])
+    simpa using this
+  have e4 : beDec (be16 et) = et := by rw [be16, beDec_beEnc 2 et (by simpa using het)]
+  have hlen : (D :: S :: C0 :: C1 :: (o ++ (be16 et ++ rest))).length = 9 + rest.length := by simp [ho]; omega
+  unfold llcParse
+  simp only [hlen]
+  have c0 : ¬ (9 + rest.length < 3) := by omega
+  simp [getU8, h2, hs, e1, e2, e3, e4, c0]
+  rw [if_neg (by omega), if_neg (by omega)]
+  split <;> rfl
+
 theorem llc_parse (next : XNext) (h : Llc) (payload : Bytes) (hf : h.Fits) :
     llcParse next (llcBytes h ++ payload) = .llc h (llcNext next h payload) := by
   have hd := hf.dsap; have hs := hf.ssap; have hc := hf.control; have hl := hf.length; have he := hf.ethType
   have hsn := hf.snap
-  have hlen := llcBytes_length h hf
   obtain ⟨length, dsap, ssap, control, oui, ethType⟩ := h
-  simp only at hd hs hc hl he hsn hlen
+  simp only at hd hs hc hl he hsn
   have td : (UInt8.ofNat dsap).toNat = dsap := u8_toNat _ hd
   have ts : (UInt8.ofNat ssap).toNat = ssap := u8_toNat _ hs
-  -- the control field as the parser reads it
-  have hctl : ∀ (two : Bool), Llc.two ⟨length, dsap, ssap, control, oui, ethType⟩ = two →
-      (((llcCtl ⟨length, dsap, ssap, control, oui, ethType⟩).headD 0).toNat % 2 == 0
-        || ((llcCtl ⟨length, dsap, ssap, control, oui, ethType⟩).headD 0).toNat % 4 == 2) = two := by
-    intro two ht
-    unfold llcCtl
-    rw [ht]
-    cases two
-    · simp only [Bool.false_eq_true, if_false, List.headD_cons]
-      simp only [ht, Bool.false_eq_true, if_false] at hc
-      rw [u8_toNat _ hc]; exact ht
-    · simp only [if_true, List.headD_cons]
-      rw [u8_toNat _ (Nat.mod_lt _ (by decide))]
-      have : control % 256 % 2 = control % 2 := by omega
-      have h4 : control % 256 % 4 = control % 4 := by omega
-      rw [this, h4]; exact ht
-  cases ht : Llc.two ⟨length, dsap, ssap, control, oui, ethType⟩ <;> cases oui with
-  | none =>
-    all_goals
-      have hns : ¬ ((ssap / 2) * 2 = 0xaa ∧ (dsap / 2) * 2 = 0xaa) := by
-        intro hh; have := hsn.mpr hh; simp at this
-      simp only [ht, Option.isSome, Bool.false_eq_true, if_false, if_true] at hc hl he
-      have hct := hctl _ ht
-      simp only [llcCtl, ht, Bool.false_eq_true, if_false, if_true, List.headD_cons] at hct
-      subst he
-      simp only [llcBytes, llcCtl, llcSnap, llcNext, ht, Bool.false_eq_true, if_false, if_true, List.append_nil,
-        List.cons_append, List.nil_append]
-      unfold llcParse
-      simp [getU8, td, ts, hct, hns, hl]
-      try (rw [u8_toNat _ hc])
-      try (have c1 : control % 256 < 256 := Nat.mod_lt _ (by decide)
-           have c3 : control / 256 < 256 := by omega
-           rw [u8_toNat _ c1, u8_toNat _ c3]; omega)
-  | some o =>
-    all_goals
-      have hss : (ssap / 2) * 2 = 0xaa ∧ (dsap / 2) * 2 = 0xaa := hsn.mp rfl
-      have ho3 := hf.oui o rfl
-      simp only [ht, Option.isSome, Bool.false_eq_true, if_false, if_true] at hc hl he
-      have hct := hctl _ ht
-      simp only [llcCtl, ht, Bool.false_eq_true, if_false, if_true, List.headD_cons] at hct
-      sorry
+  have hsb : ((ssap / 2) * 2 == 0xaa && (dsap / 2) * 2 == 0xaa) = oui.isSome := by
+    cases hi : oui.isSome
+    · have : ¬ ((ssap / 2) * 2 = 0xaa ∧ (dsap / 2) * 2 = 0xaa) := by
+        intro hh; have := hsn.mpr hh; rw [hi] at this; cases this
+      simp only [Bool.and_eq_false_imp, beq_iff_eq, beq_eq_false_iff_ne]
+      intro h1 h2; exact this ⟨h1, h2⟩
+    · have := hsn.mp hi
+      simp [this.1, this.2]
+  cases ht : Llc.two ⟨length, dsap, ssap, control, oui, ethType⟩
+  · -- one control octet
+    have htw : (control % 2 == 0 || control % 4 == 2) = false := ht
+    simp only [ht, Bool.false_eq_true, if_false] at hc hl
+    have tc : (UInt8.ofNat control).toNat = control := u8_toNat _ hc
+    cases oui with
+    | none =>
+      simp only [Option.isSome, Bool.false_eq_true, if_false] at he hl hsb
+      subst he; subst hl
+      have := llcParse_u next (UInt8.ofNat dsap) (UInt8.ofNat ssap) (UInt8.ofNat control) payload
+        (by rw [tc]; exact htw) (by rw [ts, td]; exact hsb)
+      simpa [llcBytes, llcCtl, llcSnap, llcNext, ht, td, ts, tc] using this
+    | some o =>
+      simp only [Option.isSome, if_true] at he hl hsb
+      subst hl
+      have := llcParse_us next (UInt8.ofNat dsap) (UInt8.ofNat ssap) (UInt8.ofNat control) o ethType payload
+        (hf.oui o rfl) he (by rw [tc]; exact htw) (by rw [ts, td]; exact hsb)
+      simpa [llcBytes, llcCtl, llcSnap, llcNext, ht, td, ts, tc] using this
+  · -- two control octets
+    have htw : (control % 2 == 0 || control % 4 == 2) = true := ht
+    simp only [ht, if_true] at hc hl
+    have c1 : control % 256 < 256 := Nat.mod_lt _ (by decide)
+    have c3 : control / 256 < 256 := by omega
+    have t0 : (UInt8.ofNat (control % 256)).toNat = control % 256 := u8_toNat _ c1
+    have t1 : (UInt8.ofNat (control / 256)).toNat = control / 256 := u8_toNat _ c3
+    have hlow : (control % 256 % 2 == 0 || control % 256 % 4 == 2) = true := by
+      have e2 : control % 256 % 2 = control % 2 := by omega
+      have e4 : control % 256 % 4 = control % 4 := by omega
+      rw [e2, e4]; exact htw
+    have hsum : control % 256 + control / 256 * 256 = control := by omega
+    cases oui with
+    | none =>
+      simp only [Option.isSome, Bool.false_eq_true, if_false] at he hl hsb
+      subst he; subst hl
+      have := llcParse_i next (UInt8.ofNat dsap) (UInt8.ofNat ssap) (UInt8.ofNat (control % 256))
+        (UInt8.ofNat (control / 256)) payload (by rw [t0]; exact hlow) (by rw [ts, td]; exact hsb)
+      simpa [llcBytes, llcCtl, llcSnap, llcNext, ht, td, ts, t0, t1, hsum] using this
+    | some o =>
+      simp only [Option.isSome, if_true] at he hl hsb
+      subst hl
+      have := llcParse_is next (UInt8.ofNat dsap) (UInt8.ofNat ssap) (UInt8.ofNat (control % 256))
+        (UInt8.ofNat (control / 256)) o ethType payload (hf.oui o rfl) he (by rw [t0]; exact hlow)
+        (by rw [ts, td]; exact hsb)
+      simpa [llcBytes, llcCtl, llcSnap, llcNext, ht, td, ts, t0, t1, hsum] using this
+
+/-! ## IPv6 fixed header -/
+
+structure IPv6.Fits (h : IPv6) : Prop where
+  v : h.v = 6
+  tc : h.tc < 256
+  flow : h.flow < 1048576
+  nh : h.nh < 256
+  noExt : h.nh ≠ 0 ∧ h.nh ≠ 43 ∧ h.nh ≠ 44 ∧ h.nh ≠ 60      -- extension headers are outside the model (finding D48)
+  hop : h.hop < 256
+  src : h.src.length = 16
+  dst : h.dst.length = 16
+
+/-- version (4 bits), traffic class (8), flow label (20) -/
+def ipv6Word (h : IPv6) : Nat := h.v * 268435456 + h.tc * 1048576 + h.flow
+
+def ipv6Bytes (h : IPv6) (n : Nat) : Bytes :=
+  beEnc 4 (ipv6Word h) ++ (be16 n ++ (beEnc 1 h.nh ++ (beEnc 1 h.hop ++ (h.src ++ h.dst))))
+
+theorem ipv6_vtcfl (h : IPv6) (hf : h.Fits) :
+    ((h.v <<< 28) ||| (h.flow % 1048576)) ||| ((h.tc % 256) <<< 20) = ipv6Word h := by
+  have h1 := hf.flow; have h2 := hf.tc
+  rw [Nat.mod_eq_of_lt h1, Nat.mod_eq_of_lt h2]
+  rw [Nat.or_assoc, Nat.or_comm h.flow, ← Nat.or_assoc]
+  have e : h.v <<< 28 = (h.v <<< 8) <<< 20 := by rw [← Nat.shiftLeft_add]
+  rw [e, ← Nat.shiftLeft_or_distrib, shl_or h.v h.tc 8 (by omega), shl_or _ h.flow 20 (by omega)]
+  unfold ipv6Word; omega
+
+theorem ipv6_encode (h : IPv6) (hf : h.Fits) (n : Nat) (hn : n < 65536) :
+    encode ipv6L [.num (ipv6Word h), .num n, .num h.nh, .num h.hop]
+      = some (beEnc 4 (ipv6Word h) ++ (be16 n ++ (beEnc 1 h.nh ++ beEnc 1 h.hop))) := by
+  have hw : ipv6Word h < 4294967296 := by
+    unfold ipv6Word; rw [hf.v]; have := hf.tc; have := hf.flow; omega
+  simp [ipv6L, encode, be16, hw, hn, hf.nh, hf.hop]
+
+theorem ipv6Hdr_ok (h : IPv6) (n : Nat) (hf : h.Fits) (hn : n < 65536) :
+    ipv6Hdr h n = .ok ({ h with plen := n }, ipv6Bytes h n) := by
+  unfold ipv6Hdr
+  simp only [ipv6_vtcfl h hf, pk_of_encode (ipv6_encode h hf n hn), bind, Except.bind, pure, Except.pure]
+  simp [ipv6Bytes, List.append_assoc]
+
+theorem ipv6Bytes_length (h : IPv6) (n : Nat) (hf : h.Fits) : (ipv6Bytes h n).length = 40 := by
+  simp [ipv6Bytes, hf.src, hf.dst]
+
+theorem ipv6_len_field (h : IPv6) (n : Nat) (hn : n < 65536) : beDec (sl (ipv6Bytes h n) 4 6) = n := by
+  have : sl (ipv6Bytes h n) 4 6 = be16 n := sl_mid _ _ _ 4 6 (by simp) (by simp)
+  rw [this, be16, beDec_beEnc 2 n (by simpa using hn)]
+
+/-- ipv6.py:383-395: where the payload goes (the upper-layer checksums see this header through `prev`) -/
+def ipv6Next (next : XNext) (h : IPv6) (payload : Bytes) : XPkt :=
+  let ctx := some (XCtx.v6 h.src h.dst h.nh)
+  let nx : XPkt :=
+    if h.nh = 17 then next ctx (.core .udp) payload
+    else if h.nh = 6 then next ctx (.core .tcp) payload
+    else if h.nh = 58 then next ctx .icmp6 payload
+    else if h.nh = 59 then .nil
+    else .raw payload
+  if isUnparsedX nx then .raw payload else nx
+
+theorem ipv6_parse (next : XNext) (h : IPv6) (payload : Bytes) (hf : h.Fits) (hn : payload.length < 65536) :
+    ipv6Parse next (ipv6Bytes h payload.length ++ payload)
+      = .ipv6 { h with plen := payload.length } (ipv6Next next h payload) := by
+  have hw : ipv6Word h < 4294967296 := by
+    unfold ipv6Word; rw [hf.v]; have := hf.tc; have := hf.flow; omega
+  have hfit : fits ipv6L [.num (ipv6Word h), .num payload.length, .num h.nh, .num h.hop] := by
+    simp [ipv6L, fits, hw, hn, hf.nh, hf.hop]
+  obtain ⟨hu, _, hl8⟩ := unpack_take ipv6L _ _ (h.src ++ (h.dst ++ payload)) (ipv6_encode h hf _ hn) hfit
+  have hsz : size ipv6L = 8 := rfl
+  rw [hsz] at hu hl8
+  have hraw : ipv6Bytes h payload.length ++ payload
+      = (beEnc 4 (ipv6Word h) ++ (be16 payload.length ++ (beEnc 1 h.nh ++ beEnc 1 h.hop))) ++ (h.src ++ (h.dst ++ payload)) := by
+    simp [ipv6Bytes, List.append_assoc]
+  have hlen : (ipv6Bytes h payload.length ++ payload).length = 40 + payload.length := by
+    rw [List.length_append, ipv6Bytes_length h _ hf]
+  have hs := hf.src; have hd := hf.dst
+  have s1 : sl ((beEnc 4 (ipv6Word h) ++ (be16 payload.length ++ (beEnc 1 h.nh ++ beEnc 1 h.hop))) ++ (h.src ++ (h.dst ++ payload))) 8 24
+      = h.src := sl_mid _ _ _ 8 24 (by rw [hl8]) (by rw [hl8, hs])
+  have s2 : sl ((beEnc 4 (ipv6Word h) ++ (be16 payload.length ++ (beEnc 1 h.nh ++ beEnc 1 h.hop))) ++ (h.src ++ (h.dst ++ payload))) 24 40
+      = h.dst := by
+    rw [← List.append_assoc]
+    exact sl_mid _ _ _ 24 40 (by rw [List.length_append, hl8, hs]) (by rw [List.length_append, hl8, hs, hd])
+  have s3 : sl ((beEnc 4 (ipv6Word h) ++ (be16 payload.length ++ (beEnc 1 h.nh ++ beEnc 1 h.hop))) ++ (h.src ++ (h.dst ++ payload))) 40
+      (40 + payload.length) = payload := by
+    rw [← List.append_assoc, ← List.append_assoc]
+    exact sl_tail _ _ _ _ (by simp only [List.length_append, hl8, hs, hd]) (by simp only [List.length_append, hl8, hs, hd])
+  have ht := hf.tc; have hfl := hf.flow
+  have e1 : ipv6Word h / 268435456 = 6 := by unfold ipv6Word; rw [hf.v]; omega
+  have e2 : ipv6Word h / 1048576 % 256 = h.tc := by unfold ipv6Word; rw [hf.v]; omega
+  have e3 : ipv6Word h % 1048576 = h.flow := by unfold ipv6Word; rw [hf.v]; omega
+  obtain ⟨n0, n43, n44, n60⟩ := hf.noExt
+  unfold ipv6Parse
+  simp only [hlen]
+  rw [hraw]
+  rw [hu]
+  have c0 : ¬ (40 + payload.length < 40) := by omega
+  have c1 : ¬ (payload.length > 40 + payload.length) := by omega
+  simp only [c0, if_false, e1, e2, e3, c1, s1, s2, s3]
+  simp only [n0, n43, n44, n60, or_self, if_false, ne_eq, not_true_eq_false]
+  unfold ipv6Next
+  have hv := hf.v
+  cases h
+  simp_all
+
+/-! ## upper-layer checksums over the IPv6 pseudo header (RFC 8200 §8.1) -/
+
+/-- source, destination, 32-bit upper-layer length, three zero octets, next header -/
+def pseudo6 (src dst : Bytes) (len nh : Nat) : Bytes :=
+  src ++ (dst ++ (beEnc 4 len ++ (be16 0 ++ (beEnc 1 0 ++ beEnc 1 nh))))
+
+theorem pseudo6_length (src dst : Bytes) (len nh : Nat) (hs : src.length = 16) (hd : dst.length = 16) :
+    (pseudo6 src dst len nh).length = 40 := by simp [pseudo6, hs, hd]
+
+theorem pseudo6_encode (len nh : Nat) (hl : len < 4294967296) (hn : nh < 256) :
+    encode pseudo6L [.num len, .num 0, .num 0, .num nh] = some (beEnc 4 len ++ (be16 0 ++ (beEnc 1 0 ++ beEnc 1 nh))) := by
+  simp [pseudo6L, encode, be16, hl, hn]
+
+/-- RFC 768 over IPv6 -/
+def udp6CsumSpec (src dst : Bytes) (nh : Nat) (h : Udp) (payload : Bytes) : Nat :=
+  let r := rfc1071 (pseudo6 src dst (payload.length + 8) nh ++ (udpPre h payload.length ++ 0 :: 0 :: payload))
+  if r = 0 then 65535 else r
+
+theorem udp6CsumSpec_lt (src dst : Bytes) (nh : Nat) (h : Udp) (p : Bytes) : udp6CsumSpec src dst nh h p < 65536 := by
+  unfold udp6CsumSpec
+  have := rfc1071_lt (pseudo6 src dst (p.length + 8) nh ++ (udpPre h p.length ++ 0 :: 0 :: p))
+  simp only []
+  split <;> omega
+
+theorem udpHdr6_ok (src dst : Bytes) (nh : Nat) (h : Udp) (payload : Bytes) (hs : src.length = 16)
+    (hd : dst.length = 16) (hnh : nh < 256) (hf : h.Fits) (hn : payload.length + 8 < 65536) :
+    udpHdr6 src dst nh h payload
+      = .ok ({ h with len := payload.length + 8, csum := udp6CsumSpec src dst nh h payload },
+             udpPre h payload.length ++ be16 (udp6CsumSpec src dst nh h payload)) := by
+  have e0 := udp_encode h hf payload.length 0 hn (by decide)
+  have ep := pseudo6_encode (payload.length + 8) nh (by omega) hnh
+  have ec := udp_encode h hf payload.length _ hn (udp6CsumSpec_lt src dst nh h payload)
+  have hcomm : 8 + payload.length = payload.length + 8 := Nat.add_comm _ _
+  have hdata : (src ++ (dst ++ (beEnc 4 (payload.length + 8) ++ (be16 0 ++ (beEnc 1 0 ++ beEnc 1 nh)))))
+        ++ (udpPre h payload.length ++ be16 0 ++ payload)
+      = (pseudo6 src dst (payload.length + 8) nh ++ udpPre h payload.length) ++ 0 :: 0 :: payload := by
+    simp [pseudo6, be16_zero, List.append_assoc]
+  have hlen : ((pseudo6 src dst (payload.length + 8) nh ++ udpPre h payload.length) ++ 0 :: 0 :: payload).length ≤ 131072 := by
+    simp [pseudo6_length _ _ _ _ hs hd, udpPre_length]; omega
+  have hz := zeroWord_already 23 (pseudo6 src dst (payload.length + 8) nh ++ udpPre h payload.length) payload
+    (by simp [pseudo6_length _ _ _ _ hs hd, udpPre_length])
+  unfold udpHdr6
+  simp only [hcomm, pk_of_encode e0, pk_of_encode ep, bind, Except.bind, pure, Except.pure]
+  rw [hdata, checksum_skip_eq _ 23 hlen, hz]
+  have hspec : (if rfc1071 ((pseudo6 src dst (payload.length + 8) nh ++ udpPre h payload.length) ++ 0 :: 0 :: payload) = 0
+      then 65535 else rfc1071 ((pseudo6 src dst (payload.length + 8) nh ++ udpPre h payload.length) ++ 0 :: 0 :: payload))
+      = udp6CsumSpec src dst nh h payload := by
+    simp [udp6CsumSpec, List.append_assoc]
+  rw [hspec]
+  simp only [pk_of_encode ec]
+
+/-- RFC 793 over IPv6 -/
+def tcp6CsumSpec (src dst : Bytes) (nh : Nat) (h : Tcp) (op payload : Bytes) : Nat :=
+  rfc1071 (pseudo6 src dst (20 + op.length + payload.length) nh ++
+    (tcpPre h ((20 + op.length) / 4) ++ 0 :: 0 :: (be16 h.urg ++ (op ++ payload))))
+
+theorem tcpHdr6_ok (src dst : Bytes) (nh : Nat) (h : Tcp) (op payload : Bytes) (hs : src.length = 16)
+    (hd : dst.length = 16) (hnh : nh < 256) (hf : h.Fits) (hop : tcpOptsPadded h.opts = .ok op) (hol : op.length ≤ 40)
+    (hn : 20 + op.length + payload.length ≤ 131000) :
+    tcpHdr6 src dst nh h payload
+      = .ok ({ h with off := (20 + op.length) / 4, csum := tcp6CsumSpec src dst nh h op payload },
+             tcpPre h ((20 + op.length) / 4) ++ (be16 (tcp6CsumSpec src dst nh h op payload) ++ (be16 h.urg ++ op))) := by
+  have ho : (20 + op.length) / 4 < 16 := by omega
+  have e0 := tcp_encode h hf _ 0 ho (by decide)
+  have hcs : tcp6CsumSpec src dst nh h op payload < 65536 := rfc1071_lt _
+  have ec := tcp_encode h hf _ (tcp6CsumSpec src dst nh h op payload) ho hcs
+  have hseglen : (tcpPre h ((20 + op.length) / 4) ++ (be16 0 ++ be16 h.urg) ++ op ++ payload).length
+      = 20 + op.length + payload.length := by
+    simp [tcpPre_length]; omega
+  have ep := pseudo6_encode (20 + op.length + payload.length) nh (by omega) hnh
+  have hdata : (src ++ (dst ++ (beEnc 4 (20 + op.length + payload.length) ++ (be16 0 ++ (beEnc 1 0 ++ beEnc 1 nh)))))
+        ++ (tcpPre h ((20 + op.length) / 4) ++ (be16 0 ++ be16 h.urg) ++ op ++ payload)
+      = (pseudo6 src dst (20 + op.length + payload.length) nh ++ tcpPre h ((20 + op.length) / 4))
+        ++ 0 :: 0 :: (be16 h.urg ++ (op ++ payload)) := by
+    simp [pseudo6, be16_zero, List.append_assoc]
+  have hlen : ((pseudo6 src dst (20 + op.length + payload.length) nh ++ tcpPre h ((20 + op.length) / 4))
+        ++ 0 :: 0 :: (be16 h.urg ++ (op ++ payload))).length ≤ 131072 := by
+    simp [pseudo6_length _ _ _ _ hs hd, tcpPre_length]; omega
+  have hz := zeroWord_already 28 (pseudo6 src dst (20 + op.length + payload.length) nh ++ tcpPre h ((20 + op.length) / 4))
+    (be16 h.urg ++ (op ++ payload)) (by simp [pseudo6_length _ _ _ _ hs hd, tcpPre_length])
+  unfold tcpHdr6
+  simp only [hop, pk_of_encode e0, bind, Except.bind, pure, Except.pure, hseglen, pk_of_encode ep]
+  rw [hdata, checksum_skip_eq _ 28 hlen, hz]
+  have hspec : rfc1071 ((pseudo6 src dst (20 + op.length + payload.length) nh ++ tcpPre h ((20 + op.length) / 4))
+        ++ 0 :: 0 :: (be16 h.urg ++ (op ++ payload))) = tcp6CsumSpec src dst nh h op payload := by
+    simp [tcp6CsumSpec, List.append_assoc]
+  rw [hspec]
+  simp only [pk_of_encode ec]
+  simp [List.append_assoc]
+
+/-! ## ICMPv6 -/
+
+/-- RFC 4443 §2.3: RFC 1071 over the IPv6 pseudo header (next header 58) and the message with a zero checksum -/
+def icmp6CsumSpec (src dst : Bytes) (h : Icmp) (payload : Bytes) : Nat :=
+  rfc1071 (pseudo6 src dst (payload.length + 4) 58 ++ (icmpPre h ++ 0 :: 0 :: payload))
+
+def icmp6Bytes (src dst : Bytes) (h : Icmp) (payload : Bytes) : Bytes :=
+  icmpPre h ++ be16 (icmp6CsumSpec src dst h payload)
+
+theorem icmp6Hdr_ok (src dst : Bytes) (h : Icmp) (payload : Bytes) (hs : src.length = 16) (hd : dst.length = 16)
+    (hf : h.Fits) (hn : payload.length + 4 ≤ 131000) :
+    icmp6Hdr src dst h payload
+      = .ok ({ h with csum := icmp6CsumSpec src dst h payload }, icmp6Bytes src dst h payload) := by
+  have ep : encode icmp6PseudoL [.num (payload.length + 4), .num 0, .num 0, .num 58, .num h.type, .num h.code, .num 0]
+      = some (beEnc 4 (payload.length + 4) ++ (be16 0 ++ (beEnc 1 0 ++ (beEnc 1 58 ++ (icmpPre h ++ be16 0))))) := by
+    have : payload.length + 4 < 4294967296 := by omega
+    simp [icmp6PseudoL, encode, be16, icmpPre, this, hf.type, hf.code]
+  have ec := icmp_encode h hf (icmp6CsumSpec src dst h payload) (rfc1071_lt _)
+  have hdata : (src ++ (dst ++ (beEnc 4 (payload.length + 4) ++ (be16 0 ++ (beEnc 1 0 ++ (beEnc 1 58 ++ (icmpPre h ++ be16 0)))))))
+        ++ payload = (pseudo6 src dst (payload.length + 4) 58 ++ icmpPre h) ++ 0 :: 0 :: payload := by
+    simp [pseudo6, be16_zero, List.append_assoc]
+  have hpl : (icmpPre h).length = 2 := by simp [icmpPre]
+  have hlen : ((pseudo6 src dst (payload.length + 4) 58 ++ icmpPre h) ++ 0 :: 0 :: payload).length ≤ 131072 := by
+    simp [pseudo6_length _ _ _ _ hs hd, hpl]; omega
+  have hz := zeroWord_already 21 (pseudo6 src dst (payload.length + 4) 58 ++ icmpPre h) payload
+    (by simp [pseudo6_length _ _ _ _ hs hd, hpl])
+  unfold icmp6Hdr
+  simp only [pk_of_encode ep, bind, Except.bind, pure, Except.pure]
+  rw [hdata, checksum_skip_eq _ 21 hlen, hz]
+  have hspec : rfc1071 ((pseudo6 src dst (payload.length + 4) 58 ++ icmpPre h) ++ 0 :: 0 :: payload)
+      = icmp6CsumSpec src dst h payload := by simp [icmp6CsumSpec, List.append_assoc]
+  rw [hspec]
+  simp only [pk_of_encode ec]
+  rfl
 
 end Pox.Packet
